@@ -3556,7 +3556,7 @@ static CK_RV SymDecryptFinal(Session* session, CK_BYTE_PTR pDecryptedData, CK_UL
 		}
 		// It is at least one padding byte. If no padding the all remains will be returned.
 		size_t paddingAdjustByte = cipher->getPaddingMode() ? 1 : 0;
-		size = remainingSize - paddingAdjustByte;
+		size = remainingSize < paddingAdjustByte ? 0 : remainingSize - paddingAdjustByte;
 	}
 
 	// Give required output buffer size.
